@@ -200,6 +200,7 @@ func c03Exec(in c03Input) (obs c03Obs, rd *planReader) {
 }
 
 func c03Check(r *vkit.Run, in c03Input) {
+	r.Begin("C03", in)
 	_, _, expN, expErr := c03Wire(in)
 	obs, rd := c03Exec(in)
 	r.Eval()
